@@ -49,6 +49,10 @@ type c02State struct {
 	// any later acknowledged unfreeze / stake / unstake / move-stake touching that provider
 	frozen     map[string]uint64
 	sweeps     int
+	// height of the last accepted in-place plan modification (it changes, retroactively for the
+	// running epoch, the policy that VerifyPairing reads, while the per-block pairing relay cache may
+	// still hold the pairing computed before it)
+	planModHeight uint64
 	nonEmpty   int
 	newPlanSeq int
 }
@@ -213,7 +217,7 @@ func (s *Sim) opC02Freeze() {
 	}
 }
 
-var c02PolicyGeos = []int32{1, int32(planstypes.Geolocation_GL), 2, 3, 4, 5, 64, 1 | 2 | 4, 0}
+var c02PolicyGeos = []int32{1, int32(planstypes.Geolocation_GL), int32(planstypes.Geolocation_GL), 3, 5, 7, 1, 2, 4, 64, 0}
 
 func c02ModeName(m planstypes.SELECTED_PROVIDERS_MODE) string {
 	return planstypes.SELECTED_PROVIDERS_MODE_name[int32(m)]
@@ -318,6 +322,7 @@ func (s *Sim) c02PolString(p *planstypes.Policy) string {
 	for _, a := range p.SelectedProviders {
 		sel = append(sel, s.NameOf(a))
 	}
+	sort.Strings(sel) // the effective list comes out of a Go map: never log its order
 	cps := []string{}
 	for _, cp := range p.ChainPolicies {
 		rs := []string{}
@@ -405,6 +410,9 @@ func (s *Sim) opC02Plan() {
 	if res.Err != nil {
 		out = "rejected"
 	} else {
+		if modify && st != nil {
+			st.planModHeight = s.Height()
+		}
 		known := false
 		for _, n := range s.PlanNames {
 			if n == plan.Index {
@@ -420,6 +428,53 @@ func (s *Sim) opC02Plan() {
 	}
 	r.Op("c02plan", out)
 	r.Logf("c02plan %s modify=%v block=%d %s: %s", plan.Index, modify, plan.Block, s.c02PolString(&plan.PlanPolicy), short(res.Err))
+}
+
+// opC02Complain: a paired provider claims a relay that carries an unresponsiveness report against
+// another paired provider (the lowest-numbered one, so that complaints accumulate on one victim).
+// Enough complaint CU over several epochs makes BeginBlock jail the victim: a soft jail moves its
+// StakeAppliedBlock into the future, repeated jails freeze it.
+func (s *Sim) opC02Complain() {
+	r := s.R
+	c := s.pickCons()
+	signer := s.signerFor(c)
+	spec := s.c02PickSpec()
+	paired := s.pairedProvidersFor(signer, spec.Index)
+	if len(paired) < 2 {
+		r.Op("c02complain", "skipped")
+		r.Logf("c02complain %s %s: fewer than two paired providers", signer.Name, spec.Index)
+		return
+	}
+	victim := paired[0]
+	for _, p := range paired {
+		if p.Acc.Name < victim.Acc.Name {
+			victim = p
+		}
+	}
+	var claimers []*ProviderActor
+	for _, p := range paired {
+		if p != victim {
+			claimers = append(claimers, p)
+		}
+	}
+	p := claimers[r.Draw("ops", len(claimers))]
+	s.sessionSeq++
+	rs := RelaySpec{Consumer: c, Signer: signer, Provider: p, Spec: spec.Index, Epoch: int64(s.EpochStart()), Session: s.sessionSeq,
+		CuSum: uint64(10 + r.Draw("ops", 500)), RelayNum: 1,
+		Unresp: []*pairingtypes.ReportedProvider{{Address: victim.Acc.Addr, Errors: 3, Disconnections: 1, TimestampS: s.Now().Unix()}}}
+	rel := s.BuildRelay(rs)
+	res := s.SendRelayPayment("c02complain", p, []*pairingtypes.RelaySession{rel})
+	r.Logf("c02complain %s<-%s(%s) %s epoch=%d cu=%d against %s: %s", p.Acc.Name, c.Acc.Name, signer.Name, spec.Index, rs.Epoch, rs.CuSum, victim.Acc.Name, short(res.Err))
+}
+
+// opC02Epochs: let one to three epochs pass (jailing needs a dozen epochs of history).
+func (s *Sim) opC02Epochs() {
+	n := 1 + s.R.Draw("ops", 3)
+	for i := 0; i < n; i++ {
+		s.AdvanceToNextEpoch(s.BlockTimeDefault() / 2)
+	}
+	s.R.Logf("c02epochs +%d -> h=%d epoch=%d", n, s.Height(), s.EpochStart())
+	s.R.Op("c02epochs", "ok")
 }
 
 // opC02Check: a mid-epoch evaluation point.
@@ -582,18 +637,24 @@ func (st *c02State) sweep(where string) {
 					r.Probe("c02_future_applied_in_snapshot")
 				}
 			}
+			if e.Jails > 0 || e.JailEndTime > 0 {
+				r.Probe("c02_jailed_in_snapshot")
+				if e.StakeAppliedBlock > epoch {
+					r.Probe("c02_jailed_unapplied_in_snapshot")
+				}
+			}
 		}
 		seenProject := map[string][]string{} // project index -> pairing addresses of the first key
 		for _, c := range s.Consumers {
 			keys := append([]*Account{c.Acc}, c.Devs...)
 			for _, dev := range keys {
-				st.checkOne(dev, chainID, epoch, height, snapshot, snap, seenProject)
+				st.checkOne(dev, c.Acc, chainID, epoch, height, snapshot, snap, seenProject)
 			}
 		}
 	}
 }
 
-func (st *c02State) checkOne(dev *Account, chainID string, epoch, height uint64, snapshot []epochstoragetypes.StakeEntry, snap map[string]*epochstoragetypes.StakeEntry, seenProject map[string][]string) {
+func (st *c02State) checkOne(dev, devOwner *Account, chainID string, epoch, height uint64, snapshot []epochstoragetypes.StakeEntry, snap map[string]*epochstoragetypes.StakeEntry, seenProject map[string][]string) {
 	s := st.s
 	r := s.R
 	proj, perr := s.K.Projects.GetProjectForDeveloper(s.Ctx, dev.Addr, height)
@@ -643,6 +704,9 @@ func (st *c02State) checkOne(dev *Account, chainID string, epoch, height uint64,
 			reason = "empty_snapshot"
 		}
 		r.Probe("c02_pairing_error_" + reason)
+		if polErr != nil && strings.Contains(polErr.Error(), "strictest geo") {
+			r.Probe("c02_geo_empty_intersection")
+		}
 		r.Logf("  pair %s: error (%s) %.90s", tag, reason, err.Error())
 		r.Check(reason != "other", "pairing-unavailable", "policy-and-snapshot-present",
 			"%s: an effective policy exists (%s) and %d providers are in the snapshot of epoch %d but GetPairingForClient failed: %v", tag, s.c02PolString(pol), len(snapshot), epoch, err)
@@ -666,6 +730,39 @@ func (st *c02State) checkOne(dev *Account, chainID string, epoch, height uint64,
 		}
 		if polErr != nil {
 			r.Fail("pairing-without-policy", "no-effective-policy", "%s: a pairing [%s] was returned but no effective policy can be computed: %v", tag, st.names(list), polErr)
+		}
+		// the three policy levels, read separately: the effective max-providers is the smallest of the
+		// levels; a level that demands an EXCLUSIVE non-empty list binds every member (unless the
+		// plan disables the selected-providers feature altogether)
+		if plan, perr2 := s.K.Subscription.GetPlanFromSubscription(s.Ctx, proj.Subscription, height); perr2 == nil {
+			levels := []*planstypes.Policy{&plan.PlanPolicy}
+			if proj.SubscriptionPolicy != nil {
+				levels = append(levels, proj.SubscriptionPolicy)
+			}
+			if proj.AdminPolicy != nil {
+				levels = append(levels, proj.AdminPolicy)
+			}
+			minMax := levels[0].MaxProvidersToPair
+			disabled := false
+			for _, lv := range levels {
+				if lv.MaxProvidersToPair < minMax {
+					minMax = lv.MaxProvidersToPair
+				}
+				if lv.SelectedProvidersMode == planstypes.SELECTED_PROVIDERS_MODE_DISABLED {
+					disabled = true
+				}
+			}
+			r.Check(pol.MaxProvidersToPair == minMax, "effective-max-providers", "not-the-smallest-level", "%s: effective MaxProvidersToPair=%d but the smallest of the %d policy levels is %d", tag, pol.MaxProvidersToPair, len(levels), minMax)
+			if !disabled {
+				for li, lv := range levels {
+					if lv.SelectedProvidersMode != planstypes.SELECTED_PROVIDERS_MODE_EXCLUSIVE || len(lv.SelectedProviders) == 0 {
+						continue
+					}
+					for _, e := range list {
+						r.Check(c02Has(lv.SelectedProviders, e.Address), "pairing-member-ineligible", "not-on-exclusive-list-of-a-level", "%s: paired provider %s is not on the EXCLUSIVE list of policy level %d (0=plan,1..=project): %s", tag, s.NameOf(e.Address), li, s.c02PolString(lv))
+					}
+				}
+			}
 		}
 		// clause 3: every member meets every mandatory requirement
 		lenient := false
@@ -706,6 +803,19 @@ func (st *c02State) checkOne(dev *Account, chainID string, epoch, height uint64,
 		if len(list) > 0 {
 			st.nonEmpty++
 		}
+	}
+
+	// the GetPairing query is the same list (and names the same epoch)
+	if err == nil && dev == devOwner {
+		qres, qerr := s.K.Pairing.GetPairing(sdk.WrapSDKContext(st.query()), &pairingtypes.QueryGetPairingRequest{ChainID: chainID, Client: dev.Addr})
+		qa := []string{}
+		if qerr == nil {
+			for _, e := range qres.Providers {
+				qa = append(qa, e.Address)
+			}
+		}
+		r.Check(qerr == nil && strings.Join(qa, ",") == strings.Join(addrs, ",") && qres.CurrentEpoch == epoch, "pairing-query-differs", "GetPairing-vs-GetPairingForClient",
+			"%s: GetPairing query err=%v list=[%s] differs from GetPairingForClient [%s] (epoch %d)", tag, qerr, strings.Join(qa, ","), strings.Join(addrs, ","), epoch)
 	}
 
 	// clause 5: p in pairing <=> VerifyPairing(consumer, p, epoch) succeeds, for every provider actor
@@ -750,6 +860,8 @@ func (st *c02State) checkOne(dev *Account, chainID string, epoch, height uint64,
 		}
 		if young {
 			sig += ":consumer-created-this-epoch"
+		} else if st.planModHeight == height {
+			sig += ":plan-modified-in-this-block"
 		}
 		if r.Fail("pairing-verify-mismatch", sig, "%s: provider %s inPairing=%v but VerifyPairing(block=%d).valid=%v err=%v at height %d; pairing=[%s]; project existed at epoch start=%v", tag, p.Acc.Name, in[p.Acc.Addr], epoch, valid, verr, height, st.names(list), thenOK) {
 			break // known finding: one report per (key, chain) is enough
@@ -866,7 +978,7 @@ func c02Weights() map[string]int {
 		"val_delegate": 1, "val_undelegate": 1, "val_redelegate": 0,
 		"buy": 5, "autorenew": 1, "addproject": 4, "delproject": 1, "keys": 4, "setpolicy": 2,
 		"relay": 6,
-		"c02stake": 10, "c02freeze": 5, "c02policy": 14, "c02plan": 4, "c02check": 7,
+		"c02stake": 10, "c02freeze": 5, "c02policy": 14, "c02plan": 4, "c02check": 7, "c02complain": 6, "c02epochs": 4,
 	}
 }
 
@@ -957,6 +1069,8 @@ func init() {
 	AddOp("c02policy", (*Sim).opC02Policy)
 	AddOp("c02plan", (*Sim).opC02Plan)
 	AddOp("c02check", (*Sim).opC02Check)
+	AddOp("c02complain", (*Sim).opC02Complain)
+	AddOp("c02epochs", (*Sim).opC02Epochs)
 	simrt.Register("C02", &simrt.PropSpec{Fn: runC02, NonTrivial: c02NonTrivial,
 		Rule: "tape-generated histories on the base chain world plus a spec with a mandatory collection, two add-ons, an optional api interface and extensions (and sometimes a static-provider spec): providers (re)stake with per-geolocation endpoints supporting random subsets of interfaces/add-ons/extensions, freeze/unfreeze, unstake, move stake, delegations; plans are added/modified by governance proposals and subscription/admin policies set through the msg servers with geolocation profiles, max-providers, selected-provider modes (ALLOWED/MIXED/EXCLUSIVE/DISABLED) and chain requirements (collections + extensions, mixed or not); relays populate the pairing relay cache. After every epoch start and at tape-chosen mid-epoch points, for every developer key x dynamic spec the five clauses of the statement are evaluated (eligibility by an independent predicate). Non-trivial = >=10 accepted operations, >=5 non-empty pairings examined, eligible!=max seen and at least one of exclusive/mixed/requirement/unapplied-stake situations; distinct = (op,outcome,fault) sequence hash",
 		Real:    chainReal,
